@@ -50,7 +50,7 @@ func init() {
 	fw.Register(&fw.Check{
 		ID:    "C10",
 		Title: "Syntax errors are reported at the right place and can always be displayed",
-		Rule: "all klog-rejected texts among: every single rule-violating edit (103 operators x every line of ~100 valid base documents: first/middle/last line, inside multi-line summaries, after blank runs, any record), " +
+		Rule: "all klog-rejected texts among: every single rule-violating edit (" + fmt.Sprint(len(docgen.Ops)) + " operators x every line of ~100 valid base documents: first/middle/last line, inside multi-line summaries, after blank runs, any record), " +
 			"pairs of edits (6 bases quick / 60 thorough), the invalid members of FA1 (second open range) and of the time/duration literal sweeps; and ALL rejected strings of <=5 (quick) / 6 (thorough) tokens over {date, LF, CRLF, space, 4 spaces, tab, 1h, x, é中, '8:00 - ', ?, (8h!), U+00A0}; each parsed serially and with 2 and 3 workers. " +
 			"non-trivial = rejected by klog; distinct by text hash. The expected first faulty line comes from the reference parser (first physical line at which no continuation of the grammar exists).",
 		Assumptions: []string{
